@@ -146,6 +146,26 @@ pub fn single_clauses(thorough: bool) -> Vec<Clause> {
             out.extend(clauses_for(q, &[], &funops, &[], true).into_iter().filter(|c| matches!(c, Clause::Unary { not: true, .. })));
         }
     }
+    // key filters: [ keys <op> literal ] after a key, after `.*` / `[*]`, followed by nothing / a key / [*]
+    let kfs = [
+        Part::KeysFilter(false, BinOp::Eq, crate::val::s("a")),
+        Part::KeysFilter(false, BinOp::Eq, V::Regex("^a".into())),
+        Part::KeysFilter(false, BinOp::In, crate::val::l(vec![crate::val::s("a"), crate::val::s("b")])),
+        Part::KeysFilter(true, BinOp::Eq, crate::val::s("a")),
+        Part::KeysFilter(true, BinOp::In, crate::val::l(vec![crate::val::s("b")])),
+        Part::KeysFilter(false, BinOp::Eq, crate::val::s("zz")),
+    ];
+    for kf in &kfs {
+        for pre in [vec![], vec![Part::Star], vec![Part::All]] {
+            for post in [vec![], vec![key("a")], vec![Part::All]] {
+                let mut q = vec![key("a")];
+                q.extend(pre.clone());
+                q.push(kf.clone());
+                q.extend(post);
+                out.extend(clauses_for(&q, &flits[..2], &[UnOp::Exists, UnOp::Empty, UnOp::IsInt], &[BinOp::Eq], false));
+            }
+        }
+    }
     // `this`-headed spellings of a covering subset
     for q in qs.iter().take(8) {
         let mut tq = vec![Part::This];
